@@ -629,6 +629,7 @@ func checkCmd(p *propCfg, tier, repo string, writeEvidence bool) int {
 	}
 	os.MkdirAll(rdir, 0o755)
 	shrunk := 0
+	unreproduced := 0
 	seenKey := map[string]bool{}
 	for _, k := range keys {
 		cases := agg.byKey[k]
@@ -676,7 +677,7 @@ func checkCmd(p *propCfg, tier, repo string, writeEvidence bool) int {
 		if c == nil {
 			// could not be reproduced in a fresh process: machinery trouble, not a verdict
 			fmt.Fprintf(os.Stderr, "verifctl: violation %s did not reproduce in a fresh process (%s)\n", k, conf)
-			exit = 2
+			unreproduced++
 			continue
 		}
 		if seenKey[v.key()] {
@@ -699,6 +700,12 @@ func checkCmd(p *propCfg, tier, repo string, writeEvidence bool) int {
 			}
 		}
 		reported = append(reported, rec)
+	}
+	if unreproduced > 0 && exit == 0 {
+		// something was seen during exploration and nothing of it could be confirmed: machinery
+		// trouble, not a verdict.  (With a confirmed violation of another class the verdict
+		// stands: the unconfirmed one is only mentioned above.)
+		exit = 2
 	}
 	if wrapCh != nil {
 		wr := <-wrapCh
